@@ -22,11 +22,12 @@ type pbSpec struct {
 	Seq        []int  `json:"seq"`       // probe outcomes, 1 ok / 0 fail
 	Threshold  int    `json:"threshold"` // failure_threshold
 	Restart    string `json:"restart"`
-	Daemon     bool   `json:"daemon"`                // daemon + liveness probe instead of readiness
-	Dependent  bool   `json:"dependent"`             // a process depending on it with process_healthy
-	LauncherMs int    `json:"launcher_ms,omitempty"` // daemon: the launcher command takes this long to return
-	Exec       string `json:"exec,omitempty"`        // exec readiness probe variant: ok | exit3 | hang | killed | nocmd
-	Storm      bool   `json:"storm,omitempty"`       // every probe fails, threshold 1, back-off ~1 ms: hundreds of probe-triggered restarts
+	Daemon     bool   `json:"daemon"`                 // daemon + liveness probe instead of readiness
+	Dependent  bool   `json:"dependent"`              // a process depending on it with process_healthy
+	LauncherMs int    `json:"launcher_ms,omitempty"`  // daemon: the launcher command takes this long to return
+	Exec       string `json:"exec,omitempty"`         // exec readiness probe variant: ok | exit3 | hang | killed | nocmd
+	SelfExitMs int    `json:"self_exit_ms,omitempty"` // the first command exits by itself (code 3) after this long - after it became Ready; later ones run on
+	Storm      bool   `json:"storm,omitempty"`        // every probe fails, threshold 1, back-off ~1 ms: hundreds of probe-triggered restarts
 }
 
 func genPbSpec(rng *rand.Rand, i int) pbSpec {
@@ -217,6 +218,9 @@ func runProbeCase(c fw.Case) fw.Result {
 	} else {
 		p.Probe = true
 		p.ProbeFail = sp.Threshold
+	}
+	if sp.SelfExitMs > 0 && !sp.Daemon {
+		p.RunMs, p.Exits = []int{sp.SelfExitMs, -1}, []int{3}
 	}
 	spec.Procs = []PSpec{p}
 	if sp.Dependent {
@@ -553,6 +557,16 @@ func init() {
 			for i := 0; i < tierN(tier, 4, 12); i++ {
 				// stopped while the (1+i%3)-th probe is in flight
 				cs = append(cs, fw.MkCase("C10", "slow-probe-stop", fw.SubSeed(seed, 910000+i), pbSpec{Kind: "slow-probe-stop", Threshold: 1 + i%3}))
+			}
+			for i := 0; i < tierN(tier, 6, 48); i++ {
+				// Ready, then the command exits by itself and is restarted by its
+				// policy: readiness must be forgotten at Restarting and the new
+				// command is Ready only after a probe served to it succeeded
+				// (seeded change C10-r4-2)
+				s := fw.SubSeed(seed, 920000+i)
+				rng := fw.Rand(s)
+				cs = append(cs, fw.MkCase("C10", "ready-then-exits", s, pbSpec{Threshold: 1 + rng.Intn(3), Restart: []string{"always", "on_failure"}[i%2],
+					Seq: []int{1, 1, 1, 1, 1, 1}, SelfExitMs: 1200 + rng.Intn(1700)}))
 			}
 			for i := 0; i < tierN(tier, 143, 2400); i++ {
 				s := fw.SubSeed(seed, i)
